@@ -5,6 +5,8 @@ import J5V.Codec.RoundtripProofs
 import J5V.Codec.EncTreeProofs
 import J5V.Codec.ProgressProofs
 import J5V.Codec.AnyProofs
+import J5V.Codec.InlinedOneof
+import J5V.Codec.AnyJ5Mode
 import J5V.Generated.CodecFacts
 /-!
 # C01 — JSON codec round-trip: `decode (encode m) = m`
@@ -270,6 +272,94 @@ theorem C01_encoder_tree_depth (env : Env) (O : Oracle) (f : Nat) (root : String
     (t : PTree) (hn : v.noJ5 = true) (h : encRoot env O f root v = .ok t) : t.depth ≤ f :=
   ((TD_all env O f).root root v t hn h).1
 
+/-- **an exposed oneof inlined from a flattened object (one property, both directions, every
+environment, `_partial`)** — round 4. When an object `F` with an exposed oneof is flattened into its
+parent, the parent gets a oneof property `p` whose proto path is the path of the flattened message
+(NON-empty), while `F`'s other properties are inlined with longer paths below it: the oneof's
+members live in the same sub-message as the siblings' leaves. `Env.flat` excludes this shape (the
+path of `p` is a proper prefix of its siblings' paths), so it is outside `C01_roundtrip_partial`;
+this theorem states and proves what encoder and decoder do with `p`, for an ARBITRARY decoder state:
+
+`S'` is the flattened sub-message as the original message holds it — sibling leaves (not looked at)
+and at most one member of the oneof (`hone`), whose value round-trips (`hmem : MemberFacts`: the
+facts `RTP.val` provides in flat environments; `C01_member_facts_scalar` discharges it for scalar
+members in every environment). The encoder writes the oneof body over `S'` (`{}` when no member is
+set, else `{"!type": name, name: value}`); the decoder — in any state whose sub-message at `p`'s
+path holds no member of the oneof (`hS0`) and is `S'` without the oneof's member (`hS`) — starts
+from the sub-message that is ALREADY there, reads the body and writes back exactly `S'`: **the
+member is restored next to the sibling leaves decoded before, none of which is lost**. For `{}` the
+sub-message is written back unchanged — created empty if no sibling leaf was decoded yet: that
+transient empty flattened sub-message (filled by the later siblings) is what the whole-message
+induction's invariant (`restrictP`) would have to allow, and the reason this shape is not yet inside
+`C01_roundtrip_partial`. -/
+theorem C01_inlined_oneof_partial (c : Cfg) (props : List PropDef) (p : PropDef) (st : PS)
+    (ref : String) (ops : List PropDef) (hf : p.field = .oneof ref) (hp : p.path ≠ [])
+    (hfind : c.env.find ref = some (.oneof ops)) (hroot : rootSimple (.oneof ops) = true)
+    (hutf : ∀ q ∈ ops, isValidUtf8 q.jsonName = true)
+    (hseen : p.jsonName ∉ st.seen) (hgb : groupBusy props p st.m = false)
+    (S' : Fields) (f : Nat)
+    (hone : (ops.filter (isSet S')).length ≤ 1) (hmem : MemberFacts c f ops S')
+    (hS0 : ∀ q ∈ ops, ∀ k, q.path = [k] → aget k (PVal.asMsg (getPath st.m p.path)) = none)
+    (hS : S' = PVal.asMsg (getPath st.m p.path) ∨
+      ∃ q ∈ ops, ∃ k v, q.path = [k] ∧ S' = aset k v (PVal.asMsg (getPath st.m p.path))) :
+    ∃ t, encValue c.env c.O (f + 3) (.oneof ref) (.msg S') = .ok t ∧
+      decProp c props p t st =
+        .ok { m := updPath props p (some (.msg S')) st.m, seen := p.jsonName :: st.seen } :=
+  inlined_oneof_roundtrip c props p st ref ops hf hp hfind hroot hutf hseen hgb S' f hone hmem hS0 hS
+
+/-- a scalar member of any kind provides `MemberFacts` (every environment; under `OracleLaws`) -/
+theorem C01_member_facts_scalar (c : Cfg) (L : OracleLaws c.O) (f : Nat) (q : PropDef) (k : ScalarKind)
+    (v : PVal) (hqf : q.field = .scalar k) (hok : scalarOk c.O k v = true)
+    (hz : (q.pres == .imp && v.isZero) = false) :
+    ∃ tv, encValue c.env c.O (f + 1) q.field v = .ok tv ∧ Dec c q.field v tv ∧
+      (OracleWire c.O → Wire.Conforms c.env c.O q.field v tv) ∧
+      (q.pres == .imp && v.isZero) = false ∧ v.isEmptyColl = false :=
+  memberFacts_scalar c L f q k v hqf hok hz
+
+/-- **j5 `Any` under `WithProtoToAny` (one property, `_partial`)** — round 4. With `WithProtoToAny`
+the decoder does not only store `Any{type_name, j5_json}`: it also decodes the value as the message
+type the name resolves to (one `Any` level deeper; an error if that fails or the name is unknown)
+and keeps the result as the `Any`'s proto content. So for a j5 `Any` `a` holding `j5_json` only,
+`decode (encode a)` is **`a` plus the expanded content** (`stored`; exactly `a` when the value
+decodes to the empty message) — not `a`, which is why the whole-message theorem asks for the codec
+without `WithProtoToAny` for j5 `Any` values (`canDecode`). Nothing observable through the codec
+changes, though: the encoder prefers `j5_json` and writes it verbatim, so **the decoded value is
+written as exactly the same document again** (third conjunct): `encode ∘ decode ∘ encode = encode`,
+and a second round trip reproduces `stored` itself. -/
+theorem C01_any_j5_expanded_partial (c : Cfg) (hmode : c.protoToAny = true)
+    (hdepth : c.anyDepth < maxAnyDepth) (props : List PropDef) (p : PropDef) (st : PS)
+    (tn : Bytes) (tv : PTree) (iroot : String) (fs : Fields) (f : Nat)
+    (hf : p.field = .any false) (hp : p.path ≠ []) (hs : p.jsonName ∉ st.seen)
+    (hgb : groupBusy props p st.m = false) (hc : tv.complete = true) (hd : tv.depth ≤ 10000)
+    (hj : tv.render ≠ []) (hu : isValidUtf8 tn = true)
+    (hres : c.env.resolve tn = some iroot)
+    (hdec : decRootTree { c with anyDepth := c.anyDepth + 1 } iroot tv = .ok fs) :
+    let stored : PVal :=
+      if fs.isEmpty then .anyJ5 tn [] tv.render .none "" (.msg [])
+      else .anyJ5 tn [] tv.render .inn iroot (.msg fs)
+    ∃ tlit nlit vlit,
+      encValue c.env c.O (f + 1) (.any false) (.anyJ5 tn [] tv.render .none "" (.msg [])) =
+        .ok (.obj (.cons typeKey tlit (.str tn nlit) (.cons valueKey vlit (chunkNode c.O tv.render) (.nil .closed)))) ∧
+      decProp c props p
+          (.obj (.cons typeKey tlit (.str tn nlit) (.cons valueKey vlit tv (.nil .closed)))) st =
+        .ok { m := updPath props p (some stored) st.m, seen := p.jsonName :: st.seen } ∧
+      encValue c.env c.O (f + 1) (.any false) stored =
+        .ok (.obj (.cons typeKey tlit (.str tn nlit) (.cons valueKey vlit (chunkNode c.O tv.render) (.nil .closed)))) := by
+  intro stored
+  obtain ⟨tlit, nlit, vlit, henc⟩ := enc_any_j5 c.env c.O f tn [] tv.render .none "" (.msg []) hj hu
+  refine ⟨tlit, nlit, vlit, henc, ?_, ?_⟩
+  · cases fs with
+    | nil =>
+      exact dec_any_j5_p_empty c hmode hdepth props p st tn tlit nlit vlit tv iroot hf hp hs hgb hc hd
+        hres hdec
+    | cons a b =>
+      exact dec_any_j5_p c hmode hdepth props p st tn tlit nlit vlit tv iroot (a :: b) hf hp hs hgb hc hd
+        hres hdec (by simp)
+  · rw [← henc]
+    cases fs with
+    | nil => rfl
+    | cons a b => exact enc_any_j5_stable c.env c.O (f + 1) tn [] [] tv.render .inn .none iroot "" _ _ hj
+
 /-! ## Non-vacuity -/
 
 /-- hypotheses of `C01_any_j5_partial`: the value `{}` -/
@@ -459,6 +549,69 @@ example : (({ env := samplePbEnv, O := toyOracle, protoToAny := true } : Cfg).an
 example : 6 * (depthFields [(1, PVal.str (ascii "x"))] + 1) + 10 ≤ 10000 := by decide
 example : groupBusy [] { jsonName := ascii "any", path := [2], pres := .msg, field := .any true } [] = false ∧
     isValidUtf8 (ascii "t.v1.I") = true := by decide
+
+/-! ### an exposed oneof inlined from a flattened object -/
+
+/-- the exposed oneof `kind` of the flattened object: members `num` (field 20) and `txt` (21) -/
+def ioOps : List PropDef := [
+  { jsonName := ascii "num", path := [20], pres := .opt, field := .scalar .int32, group := some 0 },
+  { jsonName := ascii "txt", path := [21], pres := .opt, field := .scalar .string, group := some 0 }]
+
+/-- the parent's properties after flattening field 40: the siblings `fa`, `fb` with paths `[40, x]`
+and the oneof property `kind` with path `[40]` — a proper prefix of its siblings' paths -/
+def ioKind : PropDef := { jsonName := ascii "kind", path := [40], pres := .msg, field := .oneof "t.K" }
+def ioProps : List PropDef := [
+  { jsonName := ascii "fa", path := [40, 1], pres := .imp, field := .scalar .string },
+  ioKind,
+  { jsonName := ascii "fb", path := [40, 2], pres := .imp, field := .scalar .bool }]
+def ioEnv : Env := { defs := [("t.K", .oneof ioOps), ("t.P", .object ioProps)] }
+def ioCfg : Cfg := { env := ioEnv, O := toyOracle }
+
+/-- the environment is NOT flat (so `C01_roundtrip_partial` does not apply to it) -/
+example : ioEnv.flat = false := by decide
+/-- the decoder state after the member `fa` has been read, and the flattened sub-message of the
+original message: the sibling leaf `fa = "x"` and the oneof member `num = 7` -/
+def ioState : PS := { m := [(40, .msg [(1, .str (ascii "x"))])], seen := [ascii "fa"] }
+def ioSub : Fields := [(1, .str (ascii "x")), (20, .int 7)]
+
+/-- `C01_inlined_oneof_partial` at this instance: all hypotheses hold, and the decoder's message
+afterwards holds the sibling leaf AND the member -/
+example : ∃ t, encValue ioEnv toyOracle 4 (.oneof "t.K") (.msg ioSub) = .ok t ∧
+    decProp ioCfg ioProps ioKind t ioState =
+      .ok { m := updPath ioProps ioKind (some (.msg ioSub)) ioState.m, seen := ascii "kind" :: ioState.seen } := by
+  refine C01_inlined_oneof_partial ioCfg ioProps ioKind ioState "t.K" ioOps rfl (by decide) (by decide)
+    (by decide) (by decide) (by decide) (by decide) ioSub 1 (by decide) ?_ ?_
+    (Or.inr ⟨ioOps.head!, by decide, 20, .int 7, rfl, rfl⟩)
+  · intro q hq k v hqk hag
+    simp only [ioOps, List.mem_cons, List.not_mem_nil, or_false] at hq
+    rcases hq with rfl | rfl
+    · cases hqk
+      have hv : v = .int 7 := by
+        simp [ioSub, aget] at hag
+        exact hag.symm
+      subst hv
+      exact C01_member_facts_scalar ioCfg toyOracle_laws 0 _ .int32 (.int 7) rfl (by decide) (by decide)
+    · cases hqk
+      simp [ioSub, aget] at hag
+  · intro q hq k hqk
+    simp only [ioOps, List.mem_cons, List.not_mem_nil, or_false] at hq
+    rcases hq with rfl | rfl <;> cases hqk <;> rfl
+example : updPath ioProps ioKind (some (.msg ioSub)) ioState.m = [(40, .msg ioSub)] := by rfl
+
+/-! ### j5 `Any` under `WithProtoToAny` -/
+
+/-- hypotheses of `C01_any_j5_expanded_partial`: the value `{"id":"x"}` of type `t.v1.I`, which the
+codec `WithProtoToAny` also expands to the content `{id: "x"}` -/
+def expTree : PTree := .obj (.cons (ascii "id") (ascii "\"id\"") (.str (ascii "x") (ascii "\"x\"")) (.nil .closed))
+def expEnv : Env :=
+  { defs := [
+      ("t.I", .object [{ jsonName := ascii "id", path := [1], pres := .imp, field := .scalar .string }]),
+      ("t.Q", .object [{ jsonName := ascii "any", path := [2], pres := .msg, field := .any false }])],
+    res := [(ascii "t.v1.I", "t.I")] }
+example : expTree.complete = true ∧ expTree.depth ≤ 10000 ∧ expTree.render ≠ [] ∧
+    isValidUtf8 (ascii "t.v1.I") = true ∧ expEnv.resolve (ascii "t.v1.I") = some "t.I" := by decide
+example : decRootTree { env := expEnv, O := toyOracle, protoToAny := true, anyDepth := 0 + 1 } "t.I" expTree =
+    .ok [(1, .str (ascii "x"))] := by rfl
 
 /-- the oracle laws are satisfiable -/
 example : OracleLaws toyOracle := toyOracle_laws
